@@ -224,6 +224,20 @@ def check_text(case, ctx):
     # the supplied checksum is verified by the constructor
     d3 = must(P2WSHSortedMulti, "text/construct_with_checksum", w.m, w.key_records(w.perm), w.checksum)
     require(str(d3) == w.full, "text/construct_with_checksum")
+    # what a caller did earlier with the key-record helpers' results is his own business: the dictionaries
+    # they return are edited here (as a coordinator deriving the change descriptor would), and parsing the
+    # descriptor afterwards is unaffected
+    from buidl.descriptor import parse_any_key_record, parse_full_key_record
+
+    body = w.text[len("wsh(sortedmulti("):-2]
+    for rec in body.split(",")[1:]:
+        for fn in (parse_full_key_record, parse_any_key_record):
+            st_, got = attempt(fn, rec)
+            if st_ == "ok" and isinstance(got, dict):
+                if isinstance(got.get("account_index"), int):
+                    got["account_index"] += 1
+                got["xfp"] = "00000000"
+    ctx.label("key_record_dicts_edited_before_parse")
     # parse reproduces the descriptor
     p = must(P2WSHSortedMulti.parse, "text/parse_own_text", w.full)
     require(str(p) == w.full, "text/parse_roundtrip", f"{p} != {w.full}")
